@@ -107,6 +107,38 @@ def task_results(rng, style):
     return out
 
 
+def external_result(rng):
+    '''Result of a TestExternal holding user-made templates (text, table and
+    plots whose edge bins may be much wider than their neighbours).'''
+    from valjean.javert.templates import (PlotTemplate, SubPlotElements,
+                                          CurveElements, TextTemplate,
+                                          TableTemplate)
+    from valjean.javert.test_external import TestExternal
+    temps = []
+    for _ in range(rng.randint(1, 3)):
+        what = rng.choice(['plot', 'plot', 'text', 'table'])
+        if what == 'text':
+            temps.append(TextTemplate('User text.\n\n'))
+        elif what == 'table':
+            temps.append(TableTemplate(np.arange(3.0), np.arange(3.0) * 2,
+                                       headers=['x', 'y']))
+        else:
+            num = rng.randint(3, 6)
+            style = rng.choice(['regular', 'wide', 'wide'])
+            bins = np.arange(num + 1, dtype=float)
+            if style == 'wide':
+                bins[0] = rng.choice([-1e6, 1e-11 - 1])
+                bins[-1] = rng.choice([1e6, 2e4])
+            curve = CurveElements(values=np.arange(1.0, num + 1),
+                                  bins=[bins], legend='user curve')
+            splt = SubPlotElements(curves=[curve], axnames=('e', 'flux'))
+            if rng.random() < 0.5:
+                splt.attributes.limits = [(0.0, float(num))]
+            temps.append(PlotTemplate(subplots=[splt]))
+    return TestExternal(*temps, name='ext', success=rng.random() < 0.7
+                        ).evaluate()
+
+
 def gen_result(rng, kind=None, shape=None, plot_safe=False):
     '''Returns a dictionary: kind, result, shape, nds, masks (expected failing
     bins per dataset for the dataset comparisons), desc.'''
@@ -119,6 +151,9 @@ def gen_result(rng, kind=None, shape=None, plot_safe=False):
     from valjean.gavroche.diagnostics.metadata import TestMetadata
     from valjean.gavroche.diagnostics import stats as vst
     kind = kind or rng.choice(KINDS)
+    if kind == 'external':
+        return {'kind': kind, 'shape': (), 'nds': 0, 'fail': [],
+                'masks': None, 'result': external_result(rng)}
     shapes = SHAPES if not plot_safe else [s for s in SHAPES if 1 not in s
                                            and s != ()]
     shape = tuple(shape) if shape is not None else rng.choice(shapes)
@@ -129,7 +164,8 @@ def gen_result(rng, kind=None, shape=None, plot_safe=False):
            'masks': None}
     if kind in ('equal', 'approx', 'student', 'bonferroni', 'holm',
                 'failed'):
-        nan = kind in ('equal', 'approx', 'student') and rng.random() < 0.15
+        nan = kind in ('equal', 'approx', 'student', 'bonferroni',
+                       'holm') and rng.random() < 0.15
         ref, dss, masks = datasets(rng, shape, nds, fail, nan=nan)
         out['masks'] = masks
         out['nan'] = nan
